@@ -348,6 +348,7 @@ fn mismatch_kind(got: &JobResult, exp: &JobResult) -> &'static str {
 
 fn explore(sc: &Scenario, expected: &[JobResult], persist_dir: &str) -> Verdict {
     let jobs = sc.jobs.clone();
+    let expected_again = expected.to_vec();
     let expected = expected.to_vec();
     let body = move || {
         let handles: Vec<_> = jobs
@@ -411,6 +412,18 @@ fn explore(sc: &Scenario, expected: &[JobResult], persist_dir: &str) -> Verdict 
                 .ok()
                 .and_then(|rd| rd.flatten().map(|e| e.path()).next())
                 .map(|p| p.to_string_lossy().to_string());
+            if sc.schedule.is_some()
+                && (msg.contains("schedule ended early")
+                    || msg.contains("expected context switch but next schedule step")
+                    || msg.contains("scheduled task is not runnable")
+                    || msg.contains("expected random choice but next schedule step"))
+            {
+                // the recorded schedule does not fit the code any more (other sync operations):
+                // explore the explicit scenario again instead of reporting shuttle's complaint
+                let mut again = sc.clone();
+                again.schedule = None;
+                return explore(&again, &expected_again, persist_dir);
+            }
             let (clause, detail) = if let Some(rest) = msg.split("C19-MISMATCH|").nth(1) {
                 let mut it = rest.splitn(2, '|');
                 (it.next().unwrap_or("mismatch").to_string(), it.next().unwrap_or("").to_string())
